@@ -44,14 +44,15 @@ func (m pagerMarkup) String() string {
 func c17Markups(all bool) []pagerMarkup {
 	seps := []string{" ", " | ", "</li><li>"}
 	wraps := [][2]string{{`<div class="pagination">`, `</div>`}, {`<ul class="pager"><li>`, `</li></ul>`}, {`<p>`, `</p>`}, {`<nav><span>`, `</span></nav>`}}
-	curs := []string{"%d", "<strong>%d</strong>", `<span class="current">%d</span>`, "<b>%d</b>", "<em>%d</em>"}
+	curs := []string{"%d", "<strong>%d</strong>", `<span class="current">%d</span>`, "<b>%d</b>", "<em>%d</em>",
+		"[%d]", "(%d)", "-%d-", "%d.", "«%d»", "*%d*", "#%d", `<span class="current">- %d -</span>`}
 	navs := []string{"", "Prev/Next", "Previous/Next"}
 	var out []pagerMarkup
 	for si, s := range seps {
 		for wi, w := range wraps {
 			for ci, c := range curs {
 				for ni, nv := range navs {
-					if !all && (si+wi+ci+ni)%8 != 0 {
+					if !all && (si+wi+ci+ni)%13 != 0 {
 						continue
 					}
 					out = append(out, pagerMarkup{Sep: s, Open: w[0], Close: w[1], Cur: c, Nav: nv})
@@ -154,6 +155,9 @@ func runC17(ctx *Ctx) {
 						rep.Evaluations++
 						rep.nontrivial(fmt.Sprintf("%s|%v|%d|%d|%d", f.Name, bare, n, k, mi))
 						pageURL, src := c17Page(f, bare, n, k, m)
+						if strings.HasPrefix(f.Name, "path:") && mi%2 == 1 {
+							pageURL += "/" // the same page, addressed with a trailing slash
+						}
 						page, _ := nurl.ParseRequestURI(pageURL)
 						replay := map[string]interface{}{"page_url": pageURL, "html": src, "family": f.Name, "first_page_bare": bare, "n": n, "k": k, "markup": m.String()}
 						cell := map[string]string{"family": f.Name, "bare": b01(bare), "n": fmt.Sprint(n), "k": fmt.Sprint(k)}
